@@ -1,7 +1,339 @@
 import Rare.Model.Expr.Build
+import Rare.Gen.Tables
+/-!
+`pkg/expressions/stdlib/funcsRange.go` (array helpers), `pkg/stringSplitter/splitter.go`,
+`kfJoin` of `funcsStrings.go` (`{$ ..}` / `{@ ..}`).
+
+Modelled at /repo after the `fix:` commits for F6–F10 (+ three more found while modelling, see
+known_findings/C17.json): the splitter advances by `len(Delim)`, `@slice` clamps a negative start and
+compares `i-realStart < sliceLen`, `subContext.GetMatch` answers "" for negative indices
+(`Comp.withSub`), `@for` initialises its pooled sub-context and separates by iteration index, `@range`
+stops before its counter overflows and after `MAX_ITERATIONS` elements.
+
+A pooled `subContext` is always overwritten with `subContext{parent: context}` before use, so the
+pool is invisible: `mapperContext.Eval(stage, v0, v1)` is `stage.withSub v0 v1` (look-ups of `{0}`,
+`{1}` are answered locally, every key look-up is forwarded to the enclosing context).
+-/
 namespace Rare.Expr.Funcs.Range
 open Rare.Expr
 
-def table : Table := []
+def ArraySeparator : UInt8 := 0
+def ArraySeparatorString : Bytes := [ArraySeparator]
+
+/-- `strings.Builder`, kept reversed so that a write costs the length of what is written;
+    `n` is `Len()`. -/
+structure Sb where
+  rev : Bytes := []
+  n : Nat := 0
+
+namespace Sb
+def write (sb : Sb) (x : Bytes) : Sb := ⟨x.reverse ++ sb.rev, sb.n + x.length⟩
+def len (sb : Sb) : Nat := sb.n
+def str (sb : Sb) : Bytes := sb.rev.reverse
+end Sb
+
+/-- `strings.Index(s, d)`: byte offset of the first occurrence of `d` in `s`. -/
+def indexOf (d : Bytes) (s : Bytes) : Option Nat :=
+  if d.isPrefixOf s then some 0 else
+  match s with
+  | [] => none
+  | _ :: r => (indexOf d r).map (· + 1)
+
+/-- `strings.Count(s, "\x00")` -/
+def countSep (s : Bytes) : Int := (s.count ArraySeparator : Nat)
+
+/-- `strings.Split(s, "\x00")` -/
+def splitByte (b : UInt8) : Bytes → Bytes → List Bytes
+  | [], cur => [cur]
+  | c :: r, cur => if c = b then cur :: splitByte b r [] else splitByte b r (cur ++ [c])
+
+/-! ### stringSplitter.Splitter -/
+
+structure Splitter where
+  S : Bytes
+  Delim : Bytes
+  next : Int := 0
+
+namespace Splitter
+
+/-- `Next()`: `(ret, s')`.  `s.S[s.next:]` is `S.drop next`; `s.S[s.next:idx]` its first
+    `idx - next` bytes. -/
+def Next (s : Splitter) : Bytes × Splitter :=
+  if s.next < 0 then ([], s)
+  else
+    let rest := s.S.drop s.next.toNat
+    match indexOf s.Delim rest with
+    | none => (rest, { s with next := -1 })
+    | some i =>
+      let idx : Int := (i : Int) + s.next
+      (rest.take i, { s with next := idx + s.Delim.length })
+
+def Done (s : Splitter) : Bool := s.next < 0
+
+end Splitter
+
+/-- `for <guard> && !splitter.Done() { x := splitter.Next(); st = body(st, x) }`.
+    Every `Next` with a non-empty delimiter moves `next` forward or finishes, so `len(S) + 2`
+    rounds always suffice; running out of fuel is modelled as a hang (only possible with `Delim = ""`,
+    which no caller passes). -/
+def splitLoop {σ : Type} : Nat → Splitter → σ → (σ → Bool) → (σ → Bytes → Comp σ) → Comp σ
+  | 0, _, _, _, _ => .panic "hang: splitter does not advance"
+  | fuel + 1, sp, st, guard, body =>
+    if guard st && !sp.Done then
+      let r := sp.Next
+      (body st r.1).bind fun st' => splitLoop fuel r.2 st' guard body
+    else .ret st
+
+def loopFuel (s : Bytes) : Nat := s.length + 2
+
+/-- `arrayOperator(arr, delim, joiner, mapper)` -/
+def arrayOperator (arr delim joiner : Bytes) (mapper : Bytes → Stage) : Stage :=
+  if arr = [] then mapper arr
+  else
+    let sp : Splitter := { S := arr, Delim := delim }
+    let r := sp.Next
+    (mapper r.1).bind fun m =>
+      (splitLoop (loopFuel arr) r.2 (Sb.write {} m) (fun _ => true)
+        (fun ret x => (mapper x).bind fun m' => .ret ((ret.write joiner).write m'))).bind fun ret =>
+      .ret ret.str
+
+def noopMapper : Bytes → Stage := fun s => .ret s
+
+def argCountBetween (args : List Stage) (lo hi : Nat) : Bool := lo ≤ args.length && args.length ≤ hi
+
+/-- `{@len <arr>}` -/
+def kfArrayLen : Builder := fun args =>
+  match args with
+  | [a0] => ok (a0.bind fun val =>
+      .ret (if val = [] then ascii "0" else itoa (wrap64 (countSep val + 1))))
+  | _ => errArgCount
+
+/-- `{@split <string> "delim"}` -/
+def kfArraySplit : Builder := fun args =>
+  if !argCountBetween args 1 2 then errArgCount else
+  match evalStageIndexOrDefault args 1 (ascii " ") with
+  | .error m => .error m
+  | .ok byVal =>
+    if byVal.length = 0 then errEmpty else
+    match args with
+    | a0 :: _ => ok (a0.bind fun v => arrayOperator v byVal ArraySeparatorString noopMapper)
+    | [] => errArgCount
+
+/-- `{@join <array> "by"}` -/
+def kfArrayJoin : Builder := fun args =>
+  if !argCountBetween args 1 2 then errArgCount else
+  match evalStageIndexOrDefault args 1 (ascii " ") with
+  | .error m => .error m
+  | .ok delim =>
+    match args with
+    | a0 :: _ => ok (a0.bind fun v => arrayOperator v ArraySeparatorString delim noopMapper)
+    | [] => errArgCount
+
+/-- Loop state of `@select`: counter and the value returned from inside the loop. -/
+structure SelSt where
+  i : Int
+  found : Option Bytes
+
+def selectIndex (index : Int) (s : Bytes) : Int :=
+  if index < 0 then wrap64 (index + (wrap64 (countSep s + 1))) else index
+
+def selectStage (index : Int) (a0 : Stage) : Stage :=
+  a0.bind fun s =>
+    let sp : Splitter := { S := s, Delim := ArraySeparatorString }
+    let searchIndex := selectIndex index s
+    (splitLoop (loopFuel s) sp (⟨0, none⟩ : SelSt) (fun st => st.found.isNone)
+      (fun st val => .ret (if st.i = searchIndex then ⟨st.i, some val⟩ else ⟨wrap64 (st.i + 1), none⟩))).bind fun st =>
+    .ret (st.found.getD [])
+
+/-- `{@select <array> "index"}` -/
+def kfArraySelect : Builder := fun args =>
+  match args with
+  | [a0, a1] =>
+    match evalStageInt a1 with
+    | .error m => .error m
+    | .ok none => errNum
+    | .ok (some index) => ok (selectStage index a0)
+  | _ => errArgCount
+
+/-- `{@map <arr> <mapFunc>}` -/
+def kfArrayMap : Builder := fun args =>
+  match args with
+  | [a0, a1] => ok (a0.bind fun arr =>
+      arrayOperator arr ArraySeparatorString ArraySeparatorString (fun s => a1.withSub s []))
+  | _ => errArgCount
+
+def reduceStage (initial : Bytes) (a0 a1 : Stage) : Stage :=
+  a0.bind fun s =>
+    let sp : Splitter := { S := s, Delim := ArraySeparatorString }
+    let r := if initial = [] then sp.Next else (initial, sp)
+    splitLoop (loopFuel s) r.2 r.1 (fun _ => true) (fun memo x => a1.withSub memo x)
+
+/-- `{@reduce <arr> <reducer> [initial=""]}` -/
+def kfArrayReduce : Builder := fun args =>
+  if !argCountBetween args 2 3 then errArgCount else
+  match evalStageIndexOrDefault args 2 [] with
+  | .error m => .error m
+  | .ok initial =>
+    match args with
+    | a0 :: a1 :: _ => ok (reduceStage initial a0 a1)
+    | _ => errArgCount
+
+structure SliceSt where
+  i : Int
+  ret : Sb
+
+def sliceStart (start : Int) (s : Bytes) : Int :=
+  if start < 0 then
+    let r := wrap64 (start + (wrap64 (countSep s + 1)))
+    if r < 0 then 0 else r
+  else start
+
+def sliceStage (start len : Int) (a0 : Stage) : Stage :=
+  a0.bind fun s =>
+    let sp : Splitter := { S := s, Delim := ArraySeparatorString }
+    let realStart := sliceStart start s
+    (splitLoop (loopFuel s) sp (⟨0, {}⟩ : SliceSt)
+      (fun st => decide (len < 0) || decide (wrap64 (st.i - realStart) < len))
+      (fun st val =>
+        let ret := if st.i ≥ realStart then
+            (if st.i > realStart then st.ret.write ArraySeparatorString else st.ret).write val
+          else st.ret
+        .ret ⟨wrap64 (st.i + 1), ret⟩)).bind fun st =>
+    .ret st.ret.str
+
+/-- `{@slice <arr> start len}` -/
+def kfArraySlice : Builder := fun args =>
+  if !argCountBetween args 2 3 then errArgCount else
+  match args with
+  | a0 :: a1 :: _ =>
+    match evalStageInt a1 with
+    | .error m => .error m
+    | .ok none => errConst
+    | .ok (some start) =>
+      match evalArgInt args 2 (-1) with
+      | .error m => .error m
+      | .ok none => errConst
+      | .ok (some len) => ok (sliceStage start len a0)
+  | _ => errArgCount
+
+def InfMarker : Bytes := ascii "<INF>"
+
+/-- The counting loop of `@range`; `count` is the number of elements written so far, `fuel` is
+    `MAX_ITERATIONS + 2` (the loop itself gives up after `MAX_ITERATIONS + 1` rounds).
+    `none` = the `return "<INF>"` inside the loop. -/
+def rangeLoop : Nat → Int → Int → Int → Nat → Sb → Except String (Option Sb)
+  | 0, _, _, _, _, _ => .error "hang: range does not terminate"
+  | fuel + 1, i, stop, incr, count, sb =>
+    if (incr > 0 && i < stop) || (incr < 0 && i > stop) then
+      let sb := if sb.len > 0 then sb.write ArraySeparatorString else sb
+      let sb := sb.write (itoa i)
+      let count := count + 1
+      if count > Gen.maxIterations then .ok none
+      else if (incr > 0 && i > wrap64 (maxInt64 - incr)) || (incr < 0 && i < wrap64 (minInt64 - incr)) then
+        .ok (some sb)
+      else rangeLoop fuel (wrap64 (i + incr)) stop incr count sb
+    else .ok (some sb)
+
+def rangeBody (start stop incr : Int) : Stage :=
+  if incr = 0 then .ret ErrorValue
+  else if incr > 0 && start > stop then .ret ErrorValue
+  else if incr < 0 && start < stop then .ret ErrorValue
+  else
+    match rangeLoop (Gen.maxIterations + 2) start stop incr 0 {} with
+    | .ok (some sb) => .ret sb.str
+    | .ok none => .ret InfMarker
+    | .error m => .panic m
+
+def rangeStage (sStart sStop sIncr : Stage) : Stage :=
+  sStart.bind fun a =>
+    match atoi a with
+    | none => .ret ErrorNum
+    | some start =>
+      sStop.bind fun b =>
+        match atoi b with
+        | none => .ret ErrorNum
+        | some stop =>
+          sIncr.bind fun c =>
+            match atoi c with
+            | none => .ret ErrorNum
+            | some incr => rangeBody start stop incr
+
+/-- `{@range [start] <end> [incr]}` -/
+def kfArrayRange : Builder := fun args =>
+  match args with
+  | [a0] => ok (rangeStage (Stage.lit (ascii "0")) a0 (Stage.lit (ascii "1")))
+  | [a0, a1] => ok (rangeStage a0 a1 (Stage.lit (ascii "1")))
+  | [a0, a1, a2] => ok (rangeStage a0 a1 a2)
+  | _ => errArgCount
+
+/-- The loop of `@for`; `idx` counts rounds, `fuel` is `MAX_ITERATIONS + 2`. -/
+def forLoop (cond incr : Stage) : Nat → Bytes → Nat → Sb → Stage
+  | 0, _, _, _ => .panic "hang: for does not terminate"
+  | fuel + 1, val, idx, sb =>
+    let sIdx := itoa (idx : Nat)
+    (cond.withSub val sIdx).bind fun c =>
+      if !truthy c then .ret sb.str
+      else
+        let sb := if idx > 0 then sb.write ArraySeparatorString else sb
+        let sb := sb.write val
+        (incr.withSub val sIdx).bind fun val' =>
+          let idx := idx + 1
+          if idx > Gen.maxIterations then .ret InfMarker
+          else forLoop cond incr fuel val' idx sb
+
+/-- `{@for <start> <contExpr> <incrExpr>}` -/
+def kfArrayFor : Builder := fun args =>
+  match args with
+  | [a0, a1, a2] => ok (a0.bind fun val => forLoop a1 a2 (Gen.maxIterations + 2) val 0 {})
+  | _ => errArgCount
+
+structure FilterSt where
+  sb : Sb
+  needSep : Bool
+
+def filterStage (a0 a1 : Stage) : Stage :=
+  a0.bind fun s =>
+    let sp : Splitter := { S := s, Delim := ArraySeparatorString }
+    (splitLoop (loopFuel s) sp (⟨{}, false⟩ : FilterSt) (fun _ => true)
+      (fun st item => (a1.withSub item []).bind fun c =>
+        if truthy c then
+          .ret ⟨(if st.needSep then st.sb.write ArraySeparatorString else st.sb).write item, true⟩
+        else .ret st)).bind fun st =>
+    .ret st.sb.str
+
+/-- `{@filter <arr> <truthy-statement>}` -/
+def kfArrayFilter : Builder := fun args =>
+  match args with
+  | [a0, a1] => ok (filterStage a0 a1)
+  | _ => errArgCount
+
+/-- `{@in <val> <array>}`: the Go map is only queried for membership, so a list does. -/
+def kfArrayIn : Builder := fun args =>
+  match args with
+  | [a0, a1] =>
+    match a1.probe with
+    | .error m => .error m
+    | .ok (_, false) => errConst
+    | .ok (matchString, true) =>
+      let matchSet := splitByte ArraySeparator matchString []
+      ok (a0.bind fun val => .ret (if matchSet.contains val then TruthyVal else FalsyVal))
+  | _ => errArgCount
+
+/-- `kfJoin(delim)` of funcsStrings.go, used for `{$ a b}` and `{@ a b}`. -/
+def joinArgs (delim : UInt8) : Builder := fun args =>
+  match args with
+  | [] => ok (Stage.lit [])
+  | [a] => ok a
+  | a0 :: rest =>
+    ok (a0.bind fun v0 =>
+      (rest.foldl (fun (acc : Comp Sb) arg => acc.bind fun sb => arg.bind fun v => .ret ((sb.write [delim]).write v))
+        (.ret (Sb.write {} v0))).bind fun sb => .ret sb.str)
+
+def table : Table := [
+  ("$", joinArgs ArraySeparator),
+  ("@", joinArgs ArraySeparator),
+  ("@len", kfArrayLen), ("@map", kfArrayMap), ("@split", kfArraySplit), ("@select", kfArraySelect),
+  ("@join", kfArrayJoin), ("@reduce", kfArrayReduce), ("@filter", kfArrayFilter),
+  ("@slice", kfArraySlice), ("@in", kfArrayIn), ("@range", kfArrayRange), ("@for", kfArrayFor)]
 
 end Rare.Expr.Funcs.Range
